@@ -71,6 +71,9 @@ func runC18(c *core.Ctx) {
 		if !c.Mine(t) {
 			continue
 		}
+		if c.Enough() {
+			break
+		}
 		id := fmt.Sprintf("stress/t%d", t)
 		if !c.CaseQuiet(id) {
 			continue
@@ -198,6 +201,19 @@ func c18Scripted(c *core.Ctx, id string, mode mon.Mode, q, entry int, stim strin
 	defer rig.Dispose()
 	defer release()
 	bg := context.Background()
+	if mode == mon.NonBlock && (entry == wl.ECtxWrite1 || entry == wl.ECtxWritev) {
+		// non-blocking mode must not wait whatever context the caller passes
+		switch rng.Intn(3) {
+		case 1:
+			var cancel context.CancelFunc
+			bg, cancel = context.WithCancel(bg)
+			defer cancel()
+		case 2:
+			var cancel context.CancelFunc
+			bg, cancel = context.WithTimeout(bg, time.Hour)
+			defer cancel()
+		}
+	}
 	viol := func(key, what string) {
 		ops, _ := rig.T.Snapshot()
 		c.Violation("C18:"+key, id, fmt.Sprintf("%s [mode=%s Q=%d entry=%s stimulus=%s]", what, mode, q, wl.EntryName[entry], stim),
